@@ -798,7 +798,10 @@ class Verifier(Stmts):
         for h in hyps:
             s.add(h)
         s.add(z3.Not(goal))
-        return s.check(), s
+        r = s.check()
+        if r == z3.unsat:
+            self._last_proof = s        # the solver state of the successful attempt (thorough tier: second opinion)
+        return r, s
 
     @staticmethod
     def split_goal(g):
@@ -924,13 +927,23 @@ class Verifier(Stmts):
                             seen_keys.add(key)
                             variants.append(cand)
                 levels = variants[:18]
+                # the selections that were enough for most obligations so far come first (cheap pass), the distance-based
+                # ones after them; a second pass gives the first few a larger budget
+                old_style = [lv for lv in ([q_only, (q_only + cheap) if cheap else None] + self.relevance_levels(ob)[:2]
+                                           + [by_const if by_const and len(by_const) < len(ob.hyps) else None]) if lv]
+                old_keys = {tuple(sorted(h.get_id() for h in lv)) for lv in old_style}
+                rest = [lv for lv in levels if tuple(sorted(h.get_id() for h in lv)) not in old_keys]
+                levels = old_style + rest
+                prepared = []
                 for k, lv in enumerate(levels):
                     fh, fcore, fn_, _fl = instantiate(lv, ob.goal, rounds=2, focused=True, extra_terms=ob.terms,
                                                       max_instances=600)
-                    rf, _sf = self._try(fh, fcore, 180000, rlimit=(6000000 if k < 4 else 2000000))
+                    prepared.append((fh, fcore, fn_))
+                    rf, _sf = self._try(fh, fcore, 180000, rlimit=1500000)
                     if rf == z3.unsat:
                         ob.status, ob.backend = 'discharged', 'z3/relevant%d+focused(%d)' % (k, fn_)
                         break
+                self._second_pass = (prepared, len(old_style))
             except z3.Z3Exception as e:
                 ob.detail += 'relevant+focused instantiation failed: %s; ' % e
         if ob.status is None and r != z3.sat:
@@ -972,6 +985,17 @@ class Verifier(Stmts):
                     ob.status, ob.backend, ob.model = 'unknown', 'z3', candidate
                     ob.detail += 'z3: unknown on the quantified problem (%s); the instantiated problem is satisfiable ' \
                                  '(candidate counterexample attached)' % s3.reason_unknown()
+            # 2b. second pass over the first distance-based selections with a larger (still deterministic) budget
+            sp = getattr(self, '_second_pass', None)
+            self._second_pass = None
+            if ob.status is None and sp is not None:
+                prepared, n_old = sp
+                for k in list(range(n_old, min(len(prepared), n_old + 6))) + list(range(0, min(n_old, 2))):
+                    fh, fcore, fn_ = prepared[k]
+                    rf, _sf = self._try(fh, fcore, 180000, rlimit=7000000)
+                    if rf == z3.unsat:
+                        ob.status, ob.backend = 'discharged', 'z3/relevant%d+focused(%d)/2' % (k, fn_)
+                        break
             # 3. relevance-filtered subsets
             for k, lv in enumerate(self.relevance_levels(ob) if ob.status is None else []):
                 r2, _s2 = self._try(lv, ob.goal, min(4000, self.timeout_ms))
@@ -1003,7 +1027,32 @@ class Verifier(Stmts):
                             ob.status = 'unknown'
         ob.seconds = time.time() - t0
         self.solver_seconds += ob.seconds
+        if ob.status == 'discharged' and (ob.backend or '').startswith('z3'):
+            ob.proof_solver = getattr(self, '_last_proof', None)
         return ob
+
+    def second_opinion(self, timeout_ms=10000):
+        """thorough tier: every obligation z3 discharged is offered to cvc5 on exactly the hypotheses z3 used.  'unsat'
+        agrees; 'unknown'/timeout says nothing; 'sat' is a disagreement between the solvers and is reported as a checker
+        problem (undecided), never silently ignored"""
+        out = {'agree': 0, 'no_answer': 0, 'disagree': []}
+        keep = self.timeout_ms
+        self.timeout_ms = timeout_ms
+        try:
+            for ob in self.obligations:
+                pr = getattr(ob, 'proof_solver', None)
+                if ob.status != 'discharged' or pr is None:
+                    continue
+                r = self.run_cvc5(pr)
+                if r == 'unsat':
+                    out['agree'] += 1
+                elif r == 'sat':
+                    out['disagree'].append(ob.name)
+                else:
+                    out['no_answer'] += 1
+        finally:
+            self.timeout_ms = keep
+        return out
 
     def run_cvc5(self, solver):
         try:
